@@ -171,7 +171,7 @@ impl Property for C12Prop {
         // fresh runtime and store, so that std's per-thread hasher keys (HashSet iteration order
         // inside the orderer) are the same whatever happened before, including repeated attempts.
         let reference = run_point(dag.clone(), order.clone(), split, None, seed);
-        ev!("reference next(): {} after {} store calls: {:?}; all outputs {:?}", reference.first, reference.calls, reference.methods, reference.outputs);
+        ev!("reference next(): {} after {} store calls: {:?} and {} yields; all outputs {:?}", reference.first, reference.calls, reference.methods, reference.yields, reference.outputs);
         let delivered: BTreeSet<usize> = order.iter().copied().collect();
         let expect = dag.released_fixpoint(&delivered);
         let ref_set: BTreeSet<usize> = reference.outputs.iter().copied().collect();
@@ -182,8 +182,19 @@ impl Property for C12Prop {
         if mode == 0 {
             return;
         }
+        if reference.yields > 0 {
+            ctx::probe("next_yields_outside_store_calls");
+        }
+        let mut points: Vec<(u64, &'static str)> = vec![];
         for k in 0..reference.calls {
-            for phase in ["before", "in-flight"] {
+            points.push((k, "before"));
+            points.push((k, "in-flight"));
+        }
+        for y in 0..reference.yields {
+            points.push((y, "yield"));
+        }
+        {
+            for (k, phase) in points {
                 let mut res = None;
                 for _attempt in 0..30 {
                     let r = run_point(dag.clone(), order.clone(), split, Some((k, phase)), seed);
@@ -207,6 +218,10 @@ impl Property for C12Prop {
                             ctx::probe("cancel_between_commit_and_get_operation");
                         }
                         format!("next() dropped {ph} {method}{}", if committed_before { " (after take_next_ready was committed)" } else { "" })
+                    }
+                    None if phase == "yield" && r.first.starts_with("Cancelled") => {
+                        ctx::fault("cancel_at");
+                        format!("next() dropped at an await point outside the store calls (yield), after {} store calls", r.calls)
                     }
                     None => "no cancel".to_string(),
                 };
@@ -233,6 +248,8 @@ pub struct PointResult {
     pub at: Option<(u64, &'static str, &'static str)>,
     pub missed: bool,
     pub calls: u64,
+    /// Yields of the `next()` future outside store calls (await points that are not seams).
+    pub yields: u64,
     pub methods: Vec<&'static str>,
     pub outputs: Vec<usize>,
     pub failed: Option<String>,
@@ -257,11 +274,18 @@ fn run_point(dag: std::sync::Arc<Dag>, order: Vec<usize>, split: usize, cancel: 
                     g.base = g.calls;
                     match cancel {
                         Some((k, "before")) => g.cancel_before = Some(k),
+                        Some((_, "yield")) => {}
                         Some((k, _)) => g.cancel_in_flight = Some(k),
                         None => {}
                     }
                 }
+                stepexec::reset_yields();
+                if let Some((k, "yield")) = cancel {
+                    stepexec::request_cancel_at_yield(k);
+                }
                 let first = drive_next(&b, &dag).await;
+                let yields = stepexec::yields_seen();
+                stepexec::reset_yields();
                 let base = b.gate.borrow().base;
                 let calls = b.gate.borrow().calls - base;
                 let methods: Vec<&'static str> = b.gate.borrow().log[base as usize..].to_vec();
@@ -299,10 +323,10 @@ fn run_point(dag: std::sync::Arc<Dag>, order: Vec<usize>, split: usize, cancel: 
                     }
                 }
                 b.sqlite.pool().close().await;
-                PointResult { first: first_s, at: if matches!(first, NextOutcome::Cancelled) { at } else { None }, missed, calls, methods, outputs, failed }
+                PointResult { first: first_s, at: if matches!(first, NextOutcome::Cancelled) { at } else { None }, missed, calls, yields, methods, outputs, failed }
             })
         })
         .expect("spawn point thread")
         .join()
-        .unwrap_or_else(|_| PointResult { first: "panicked".into(), at: None, missed: false, calls: 0, methods: vec![], outputs: vec![], failed: Some("panic in point execution".into()) })
+        .unwrap_or_else(|_| PointResult { first: "panicked".into(), at: None, missed: false, calls: 0, yields: 0, methods: vec![], outputs: vec![], failed: Some("panic in point execution".into()) })
 }
